@@ -125,7 +125,10 @@ def guide_and_expected(stream, strip=False):
             for (ans, an), av in t["data"]:
                 q = an if (ans is None or strip) else "%s:%s" % (PREFIX.get(ans, ans), an)
                 attrs.append([q.lower(), av])
-            exp.append([3, name.lower(), attrs])
+            # the self-closing flag means something only outside the HTML namespace: there a start tag written with
+            # a solidus closes the element at once (None = not compared)
+            # (a foreign StartTag must not come back self-closing; EmptyTag tokens are only produced for HTML void elements)
+            exp.append([3, name.lower(), attrs, 0 if (ns not in (HTML, None) and ty == "StartTag") else None])
             sw = 0
             if ns in (HTML, None):
                 if name in RCDATA:
@@ -164,7 +167,7 @@ def norm_retok(toks):
             else:
                 out.append([1, s(t[1])])
         elif k == 3:
-            out.append([3, s(t[1]), [[s(a), s(b)] for a, b in t[2]]])
+            out.append([3, s(t[1]), [[s(a), s(b)] for a, b in t[2]], int(t[3]) if len(t) > 3 else 0])
         elif k == 4:
             out.append([4, s(t[1])])
         elif k == 5:
@@ -218,6 +221,18 @@ class C08(Plugin):
                   "<div a=\"\" b=' ' c=`>", "<title>&lt;/title></title>", "<style>&lt;/style>", "<math><annotation-xml encoding=text/html><style>x<y"]:
             for tb in ("etree", "dom"):
                 out.append({"k": 1, "opts": base, "markup": m, "tree": tb, "fragment": False})
+        # SVG/MathML elements that carry the NAME of a void or raw-text HTML element, with children, under both
+        # solidus settings (the walkers emit StartTag for them; the serializer decides on the bare name)
+        sol = dict(base, use_trailing_solidus=True)
+        sol2 = dict(base, use_trailing_solidus=True, space_before_trailing_solidus=False, quote_attr_values="always")
+        i = 0
+        for root in ("svg", "math"):
+            for nm in ("param", "input", "link", "col", "area", "base", "source", "track", "wbr", "command", "frame", "keygen"):
+                for body in ("inner", "<g>x</g>y", ""):
+                    m = "<%s><%s a=b>%s</%s>after</%s>" % (root, nm, body, nm, root)
+                    for o in (base, sol, sol2):
+                        out.append({"k": 1, "opts": o, "markup": m, "tree": "dom" if i % 2 else "etree", "fragment": i % 3 == 0})
+                        i += 1
         return out
 
     def known_witnesses(self):
@@ -281,6 +296,9 @@ class C08(Plugin):
                 v.append((cases[i], "retokenizer-failed", o[:200], txt))
                 continue
             got = norm_retok(r[1])
+            for g, e in zip(got, exp):
+                if g[0] == 3 and e[0] == 3 and e[3] is None:
+                    g[3] = None
             if got != exp:
                 v.append((cases[i], self.diff_class(stream, exp, got, txt, cases[i]["opts"]),
                           "serialized: %r\nexpected tokens: %r\nre-read tokens:  %r" % (txt, exp[:40], got[:40]), txt))
@@ -299,7 +317,7 @@ class C08(Plugin):
                     if k not in seen:
                         seen.add(k)
                         attrs.append([k, v])
-                t = [3, t[1], attrs]
+                t = [3, t[1], attrs] + t[3:]
             exp_stripped.append(t)
 
         def relax(toks, strip_prefix=False, bool_values=False, cr=False):
@@ -315,7 +333,7 @@ class C08(Plugin):
                         if cr:
                             v = v.replace("\r\n", "\n").replace("\r", "\n")
                         attrs.append([k, v])
-                    out.append([3, t[1], attrs])
+                    out.append([3, t[1], attrs] + t[3:])
                 elif t[0] == 1 and cr:
                     out.append([1, t[1].replace("\r\n", "\n").replace("\r", "\n")])
                 else:
